@@ -42,8 +42,9 @@ def worker_init():
     import warnings
 
     warnings.simplefilter("ignore")
-    _BASE = tempfile.mkdtemp(prefix="jtv_hook_")
-    atexit.register(shutil.rmtree, _BASE, True)
+    from .core import scratch_dir
+
+    _BASE = scratch_dir("jtv_hook_")
     seams.install_router()
 
 
